@@ -1124,3 +1124,36 @@ UNITS["v_collections"] = dict(
              safety_id="C28.merge.safety", safety_text="body obligations; termination of the recursion (bounded by the nesting depth of `from`) is not claimed"),
     ],
 )
+
+
+# ------------------------------------------------------------------------------------------------
+# C04/C05: stdlib format_number: the Decimal conversion cannot panic; the fraction has exactly the requested digits
+UNITS["v_format_number"] = dict(
+    prop=["C05", "C04"], tier="q", prelude=["formatnum.rs"], native_witness={"C05": ["format_number"], "C04": ["format_number"]},
+    fns=[
+        dict(id="format_number", file="src/stdlib/format_number.rs", impl=None, name="format_number",
+             orig_sig="fn format_number(value: Value, scale: Option<Value>, grouping_separator: Option<Value>, decimal_separator: Value,) -> Resolved",
+             sig="pub fn format_number(value: Value, scale: Option<Value>, grouping_separator: Option<Value>, decimal_separator: Value) -> (r: Resolved)",
+             rewrites=[
+                 dict(**{"from": "Value::Integer(v) => v.into(),", "optional": True, "to": "Value::Integer(v) => Decimal::from_i64(v),", "why": "From<i64> for Decimal"}),
+                 dict(**{"from": "Decimal::from(v)", "optional": True, "to": "Decimal::from_i64(v)", "why": "From<i64> for Decimal"}),
+                 dict(**{"from": "Decimal::from_f64(*v)", "optional": True, "to": "Decimal::from_f64(v.into_inner())", "why": "Deref of NotNan<f64>"}),
+                 dict(**{"from": r"let value: (String|Decimal) = match value", "regex": True, "optional": True, "to": "let value = match value", "why": "type annotation dropped (String is Str, Decimal stays Decimal in the prelude)"}),
+                 dict(**{"from": r"value => \{\s*return Err\(ValueError::Expected \{.*?\}\s*\.into\(\)\);\s*\}", "regex": True, "count": 1, "to": "value => { return Err(err_expected(value)); }", "why": "type-error construction opaque"}),
+                 dict(**{"from": r"let mut parts = value\s*(\.to_string\(\)\s*)?\.split\('\.'\)\s*\.map\(ToOwned::to_owned\)\s*\.collect::<Vec<String>>\(\);", "regex": True, "count": 1,
+                         "to": "let mut parts = value.dot_parts();", "why": "split('.') + collect as one contract: one or two digit strings for a rendering with at most one '.'"}),
+                 dict(**{"from": r"if let Some\(sep\) = grouping_separator\.as_deref\(\) \{.*?\n    \}\n", "regex": True, "count": 1,
+                         "to": "apply_grouping(&mut parts, &grouping_separator);\n", "why": "grouping section (iterator adapters, insert_str) opaque: NOT verified"}),
+                 dict(**{"from": r"Ok\(parts\s*\.join\(&String::from_utf8_lossy\(&decimal_separator\[\.\.\]\)\)\s*\.into\(\)\)", "regex": True, "count": 1,
+                         "to": "Ok(join_parts(&parts, &decimal_separator))", "why": "join + From<String> for Value as one contract keeping the parts"}),
+                 dict(**{"from": "String::new()", "optional": True, "to": "Str::new()", "why": "String as a sequence of chars"}),
+                 dict(**{"from": "for _ in 0..", "optional": True, "to": "for _ in __it: 0..", "why": "ghost name for the range iterator (needed to state the loop invariant)"}),
+             ],
+             loops={"_count": 1, "0": dict(spec="invariant parts@.len() == 2, parts@[1].s@.len() == __len0 + __it.index@", before="let ghost __len0 = parts@[1].s@.len();")},
+             ensures=[("C05.format_number.fraction_digits", "with a scale n the result has exactly max(n, 0) fraction digits (no fraction part for n <= 0): the padding loop runs at most n times, whatever the scale (every number, every i64 scale)",
+                       "(r is Ok && scale is Some) ==> (match scale->Some_0 { Value::Integer(n) => r->Ok_0 is Text && (if n <= 0 { r->Ok_0->Text_0.parts@.len() == 1 } else { r->Ok_0->Text_0.parts@.len() == 2 && r->Ok_0->Text_0.parts@[1].len() == n }), _ => false })"),
+                      ("C05.format_number.no_scale", "without a scale the digits are those of the number's decimal rendering",
+                       "(r is Ok && scale is None && value is Integer) ==> r->Ok_0 is Text && r->Ok_0->Text_0.parts@.len() >= 1")],
+             safety_id="C04.format_number.safety", safety_text="no panic: the Decimal conversion is not unwrapped when it has no answer (non-finite or out-of-range floats), indices into `parts` are in range, the padding count does not underflow"),
+    ],
+)
